@@ -50,7 +50,7 @@ def strategy(tier):
 
 
 def fixed_cases(tier):
-    out = [{"spec": s, "_label": "fixed_specs"} for s in gen_codedata.FIXED_SPECS]
+    out = [{"spec": s, "_label": "fixed_specs"} for s in gen_codedata.FIXED_SPECS + gen_codedata.cascade_specs()]
     for src in ["x = 1\n", "def f(a):\n return a.b + 1\n", "def f():\n return\n x = 'dead'\n"]:
         for e in EDITS:
             for k in (0, 1, 3):
